@@ -153,7 +153,13 @@ def run(ctx):
     fr = ctx.run_driver("foreignself", {"table": os.path.join(fm["dir"], "foreign_table.json"), "shard": 0}, tag="foreignself")
     for v in fr.get("violations", []):
         ctx.deferred.append("ForeignMoves table mismatch: " + str(v.get("detail"))[:300])
-    ctx.notes.append("ForeignMoves.tla table replayed on real gadgets: %d rows, %d mismatches" % (fr.get("evaluations", 0), len(fr.get("violations", []))))
+    idle = [k for k in fr.get("info", {}).get("rows_move_never_applied", []) if not k.endswith("/plusR")]
+    if idle:
+        # a move that the model applies but the harness never played: the replay of that row is vacuous (machinery drift, not a violation)
+        ctx.deferred.append("ForeignMoves replay: rows never exercised: " + ", ".join(idle[:5]))
+    ctx.notes.append("ForeignMoves.tla table replayed on real gadgets: %d rows, %d mismatches; rows whose move applied to no input: %d "
+                     "(expected: only 'the digits of x + r' at a narrow width, where the model's move does not apply either)"
+                     % (fr.get("evaluations", 0), len(fr.get("violations", [])), len(fr.get("info", {}).get("rows_move_never_applied", []))))
     # ---- M1 at gadget level: operand classes on which an alternative would pass a weakened width check ------
     ctx.absorb(ctx.run_driver("c05", {"part": "gadget", "instance": "testdata"}, tag="gadget"), "c05")
     # ---- M1 injection -------------------------------------------------------------------------------------
